@@ -35,8 +35,10 @@ func vHavocProtocol(p *protocol.Protocol, nlist int) {
 	p.MaxOperationTimeDelta = VNondetU64("p.MaxOperationTimeDelta")
 	p.NonceSize = VNondetU64("p.NonceSize")
 	p.MaxMemoryDecompressionFactor = VNondetUint("p.MaxMemoryDecompressionFactor")
-	for i := 0; i < nlist; i++ {
+	for i := 0; i < VBound("nalg", nlist); i++ {
 		p.MultihashAlgorithms = append(p.MultihashAlgorithms, VNondetUint("p.MultihashAlgorithms"))
+	}
+	for i := 0; i < nlist; i++ {
 		p.Patches = append(p.Patches, VNondetString("p.Patches"))
 		p.SignatureAlgorithms = append(p.SignatureAlgorithms, VNondetString("p.SignatureAlgorithms"))
 		p.KeyAlgorithms = append(p.KeyAlgorithms, VNondetString("p.KeyAlgorithms"))
